@@ -58,7 +58,9 @@ class Gen:
             return enclosing
         if enclosing == "":
             return self.r.choice(NS_POOL)
-        return self.r.choice([n for n in NS_POOL if n != ""])   # null-namespace names cannot be referenced from inside a namespace
+        if r < 0.62:
+            return ""      # explicit null namespace inside a namespaced type (can then only be used inline / from null-namespace contexts)
+        return self.r.choice([n for n in NS_POOL if n != ""])
 
     def schema(self, top=None):
         """A fresh top-level schema IR."""
